@@ -225,6 +225,37 @@ static void do_limits(void) {
         if (fn == 0 ? rc == 0 : (r != NULL || lh_n == 0)) { snprintf(sig, sizeof sig, "C16|%s|limits:not-refused|%s", f, kn); report(sig, cs); continue; }
         if (lh_n != 1) { snprintf(sig, sizeof sig, "C16|%s|limits:reported-%d-times|%s", f, lh_n, kn); report(sig, cs); }
     }
+    /* and a table that is large but true: 300 elements of 1 MiB (each number within the documented limit, the product above it), object size unknown and known */
+    { size_t n = 300, sz = (size_t)1 << 20; unsigned char *big = mmap(NULL, n * sz, PROT_READ | PROT_WRITE, MAP_PRIVATE | MAP_ANONYMOUS | MAP_NORESERVE, -1, 0);
+      if (big != MAP_FAILED) {
+        for (size_t i = 0; i < n; i++) big[i * sz] = (unsigned char)(i * 255 / 299);      /* sorted keys 0..255, some repeated */
+        for (int known = 0; known < 2; known++) for (int key = 0; key < 256; key += 51) {
+            char cs[200], sig[160]; snprintf(cs, sizeof cs, "limits 9 %d %d", known, key);
+            base = big; g_n = n; g_sz = sz; static unsigned char keyobj[8]; keyobj[0] = key; g_key = keyobj; bad_ptr = bad_ctx = ncmp = 0; lh_n = 0; n_searches++;
+            void *r = NULL; int faulted = 0;
+            if (sigsetjmp(jb, 1) == 0) { armed = 1; r = bs(keyobj, big, n, sz, cmp_search, &ctx_cookie, known ? n * sz : (size_t)-1); armed = 0; } else faulted = 1;
+            int exists = 0; for (size_t i = 0; i < n; i++) if (big[i * sz] == key) exists = 1;
+            if (verbose) printf("bsearch_s in 300 x 1 MiB, object size %s, key %d: %s fault=%d handler=%d\n", known ? "known" : "unknown", key, r ? "found" : "NULL", faulted, lh_n);
+            if (faulted || bad_ptr || (exists && (!r || *(unsigned char *)r != key)) || (!exists && r) || lh_n) { snprintf(sig, sizeof sig, "C16|bsearch_s|large-table:%s|%s", faulted ? "access-outside-array" : lh_n ? "refused" : "wrong-answer", known ? "object-size-known" : "object-size-unknown"); report(sig, cs); }
+        }
+        munmap(big, n * sz); } }
+    /* an array at a numeric address smaller than one element (static data of a non-PIE program with large records, or memory mapped low):
+       pointer arithmetic that steps one element below the base wraps around address zero */
+    { size_t sz = (size_t)128 << 10; long minaddr = 65536; FILE *mf = fopen("/proc/sys/vm/mmap_min_addr", "r"); if (mf) { if (fscanf(mf, "%ld", &minaddr) != 1) minaddr = 65536; fclose(mf); }
+      if (minaddr < 4096) minaddr = 4096;
+      unsigned char *low = (size_t)minaddr < sz ? mmap((void *)minaddr, 8 * sz, PROT_READ | PROT_WRITE, MAP_PRIVATE | MAP_ANONYMOUS | MAP_FIXED_NOREPLACE, -1, 0) : MAP_FAILED;
+      if (low != MAP_FAILED && (size_t)low < sz) {
+        int stop = 0;
+        for (int n = 2; n <= 7 && !stop; n++) for (int fam = 0; fam < 3 && !stop; fam++) {      /* a call that does not return costs its whole time limit: stop at the first */
+            char cs[200], sig[160]; snprintf(cs, sizeof cs, "limits 8 %d %d", n, fam);
+            base = low; g_n = n; g_sz = sz; for (int i = 0; i < n; i++) low[i * sz] = fam == 0 ? i : fam == 1 ? n - i : (i * 5 + 3) % 7;
+            bad_ptr = bad_ctx = ncmp = 0; lh_n = 0; n_arrays++; int rc = 0, faulted = 0;
+            int r0 = sigsetjmp(jb, 1); if (r0 == 0) { armed = 1; alarm(5); rc = qs(low, n, sz, cmp_sort, &ctx_cookie, (size_t)-1); alarm(0); armed = 0; } else { alarm(0); faulted = r0; stop = 1; }
+            int sorted = 1; for (int i = 1; i < n; i++) if (low[(i - 1) * sz] > low[i * sz]) sorted = 0;
+            if (verbose) printf("qsort_s of %d x 128 KiB at address %p: rc=%d fault=%d foreign-pointer=%d sorted=%d\n", n, (void *)low, rc, faulted, bad_ptr, sorted);
+            if (faulted || bad_ptr || rc || !sorted) { snprintf(sig, sizeof sig, "C16|qsort_s|array-at-low-address:%s", faulted == 2 ? "does-not-return" : faulted ? "access-outside-array" : bad_ptr ? "comparator-got-foreign-pointer" : rc ? "refused" : "not-sorted"); report(sig, cs); }
+        }
+        munmap(low, 8 * sz); } }
     set_mem_h(NULL); set_str_h(NULL);
 }
 
